@@ -1,6 +1,6 @@
 (* Props/C04.v — assertions are honoured only inside their validity windows.
    Times are whole seconds (the code truncates fractions before comparing). *)
-From PV Require Import Lib.Base Model.Status Model.Response Proofs.Response_lemmas Proofs.C04_lemmas.
+From PV Require Import Lib.Base Model.Status Model.Response Model.C04Kinds Proofs.Response_lemmas Proofs.C04_lemmas Proofs.C04_kinds.
 Open Scope Z_scope.
 
 (* Acceptance implies, for every clock value, every allowance and every subset of
@@ -69,6 +69,82 @@ Proof.
 Qed.
 Print Assumptions C04_session_expiry.
 
+(* ---- every binding, every response kind, histories (Model/C04Kinds.v) ---- *)
+
+(* [windows_ok now slack r] is exactly the conclusion of C04_reject_outside *)
+Theorem C04_windows_ok_meaning : forall nowv slackv r,
+  windows_ok nowv slackv r <->
+    (nowv - 86400 - slackv <= r_issue_instant r < nowv + 86400 + slackv) /\
+    Forall (fun a =>
+      (forall k, a_conditions a = Some k -> k_empty k = false ->
+          (forall n, k_nooa k = Some n -> nowv <= n + slackv) /\ (forall n, k_nb k = Some n -> n <= nowv + slackv) /\
+          (forall n m, k_nb k = Some n -> k_nooa k = Some m -> n <= m)) /\
+      (forall n, a_authn a = [Some n] -> nowv <= n + slackv) /\
+      (forall sc d, In sc (a_confirmations a) -> c_method sc = Bearer -> c_data sc = Some d ->
+          (forall n, d_nooa d = Some n -> nowv <= n + slackv) /\ (forall n, d_nb d = Some n -> n <= nowv + slackv)))
+      (processed r).
+Proof. intros. split; intros H; exact H. Qed.
+Print Assumptions C04_windows_ok_meaning.
+
+(* C04_reject_outside for every binding value of parse_authn_request_response: POST and
+   Redirect (asynchop), SOAP and PAOS (asynchop = False) — the synchronous bindings relax
+   no time check; and for either value of the asynchop switch as such *)
+Theorem C04_reject_outside_every_binding :
+  forall b c r o, parse_authn_via b c r = Ok o -> test_mode c = false -> windows_ok (now c) (slack c) r.
+Proof. exact authn_via_windows. Qed.
+Print Assumptions C04_reject_outside_every_binding.
+
+Theorem C04_reject_outside_either_asynchop :
+  forall v c r o, parse_response (with_asynch c v) r = Ok o -> test_mode c = false -> windows_ok (now c) (slack c) r.
+Proof. exact asynch_irrelevant. Qed.
+Print Assumptions C04_reject_outside_either_asynchop.
+
+(* the code as it is: unravel does not know PAOS, nothing is ever accepted over it *)
+Theorem C04_paos_never_accepted : forall c r, is_ok (parse_authn_via BPaos c r) = false.
+Proof. exact paos_never_accepted. Qed.
+Print Assumptions C04_paos_never_accepted.
+
+(* several confirmations: ONE bearer confirmation out of its window, at any position among
+   any others (bearer or not, however generous their bounds), rejects — over every binding *)
+Theorem C04_one_bad_confirmation_rejects :
+  forall c r a pre sc post d, test_mode c = false -> In a (processed r) -> a_confirmations a = pre ++ sc :: post ->
+    c_method sc = Bearer -> c_data sc = Some d ->
+    (exists n, d_nooa d = Some n /\ n + slack c < now c) \/ (exists n, d_nb d = Some n /\ now c + slack c < n) ->
+    forall b, is_ok (parse_authn_via b c r) = false.
+Proof. exact one_bad_confirmation_rejects. Qed.
+Print Assumptions C04_one_bad_confirmation_rejects.
+
+(* attribute-query and authn-query responses: IssueInstant window, every bearer confirmation's
+   bounds, and (attribute query) the Conditions bounds *)
+Theorem C04_query_kinds :
+  forall k b c r o, parse_query k b c r = Ok o ->
+    (now c - 86400 - slack c <= r_issue_instant r < now c + 86400 + slack c) /\
+    Forall (fun a => bearer_windows_ok (now c) (slack c) a /\ (k = QAttr -> conditions_window_ok (now c) (slack c) a)) (processed r).
+Proof. exact query_windows. Qed.
+Print Assumptions C04_query_kinds.
+
+(* the IssueInstant window for EVERY response kind sharing StatusResponse._verify (authn,
+   attribute query, authn query, logout, name-id mapping, manage-name-id) over every binding *)
+Theorem C04_issue_instant_every_kind :
+  forall k b c r, accepted k b c r = true -> now c - 86400 - slack c <= r_issue_instant r < now c + 86400 + slack c.
+Proof. exact every_kind_issue_instant. Qed.
+Print Assumptions C04_issue_instant_every_kind.
+
+(* a long-lived SP: after any sequence of parse calls (any kinds, bindings, clock values) the
+   configuration is what it was, every accepted call satisfied the windows at ITS clock value,
+   and a call's verdict does not depend on the calls before it (induction over the sequence) *)
+Theorem C04_history :
+  forall sp ks,
+    fst (run_history sp ks) = sp /\
+    Forall2 (fun k ok => ok = true -> kind_windows_ok (k_kind k) (test_mode sp) (k_now k) (slack sp) (k_msg k))
+            ks (snd (run_history sp ks)) /\
+    forall before, snd (run_history sp (before ++ ks)) = snd (run_history sp before) ++ snd (run_history sp ks).
+Proof.
+  intros sp ks. split; [exact (run_history_state sp ks)|]. split; [exact (run_history_windows sp ks)|].
+  intros before. exact (run_history_app sp before ks).
+Qed.
+Print Assumptions C04_history.
+
 (* non-vacuity + the edges the code implements (instant equal to a bound is accepted) *)
 Definition me := s2l "https://sp.example.org/sp".
 Definition acs := s2l "https://sp.example.org/acs/post".
@@ -94,3 +170,23 @@ Example C04_witness :
   match parse_response (cfgT 1000000 0) (respT None) with Ok o => o_nooa o | Err _ => -1 end = 1000300.
 Proof. vm_compute. repeat split; reflexivity. Qed.
 Print Assumptions C04_witness.
+
+(* the same edges over SOAP (asynchop = False, nothing outstanding needed), PAOS, and for a logout response *)
+Definition logoutT (ii : Z) := {| r_sig := None; r_valid_instance := true; r_irt := Some (s2l "req-1");
+  r_version := Some V20; r_ver_lt2 := Some false; r_destination := None; r_issue_instant := ii;
+  r_status := Some {| st_code := Some (Code (Some Gen.StatusTable.STATUS_SUCCESS) None); st_msg := false |};
+  r_assertions := []; r_encrypted := [] |}.
+Example C04_witness_kinds :
+  is_ok (parse_authn_via BSoap (cfgT 1000300 0) (respT None)) = true /\
+  is_ok (parse_authn_via BSoap (cfgT 1000301 0) (respT None)) = false /\
+  is_ok (parse_authn_via BSoap (cfgT 1000301 1) (respT None)) = true /\
+  is_ok (parse_authn_via BPaos (cfgT 1000000 0) (respT None)) = false /\
+  accepted (KQuery QAttr) BSoap (cfgT 1000300 0) (respT None) = true /\
+  accepted (KQuery QAttr) BSoap (cfgT 1000301 0) (respT None) = false /\
+  accepted (KStatus SLogout) BSoap (cfgT 1000000 0) (logoutT 913600) = true /\
+  accepted (KStatus SLogout) BSoap (cfgT 1000000 0) (logoutT 913599) = false /\
+  accepted (KStatus SLogout) BSoap (cfgT 1000000 5) (logoutT 913595) = true /\
+  accepted (KStatus SManageNameId) BPost (cfgT 1000000 0) (logoutT 1086400) = false /\
+  accepted (KStatus SManageNameId) BPost (cfgT 1000000 0) (logoutT 1086399) = true.
+Proof. vm_compute. repeat split; reflexivity. Qed.
+Print Assumptions C04_witness_kinds.
